@@ -79,6 +79,10 @@ func buildRevChain(purp string, slots []certSlots, noCRLSign map[int]bool, bigSe
 			u := crlURL(i, k)
 			if k < len(slots[i].CRLKinds) && slots[i].CRLKinds[k] != "" && slots[i].CRLKinds[k] != "ok" {
 				u = fmt.Sprintf("%s://crl.test/c%d/p%d.crl", slots[i].CRLKinds[k], i, k)
+				if slots[i].CRLKinds[k] == "casevariant" && k > 0 {
+					// another distribution point: the previous one's URL with the path in capitals (paths are case-sensitive)
+					u = fmt.Sprintf("http://crl.test/C%d/P%d.CRL", i, k-1)
+				}
 			}
 			p.certs[i].spec.CRL = append(p.certs[i].spec.CRL, u)
 		}
